@@ -962,6 +962,7 @@ def fixed_cases():
     out.append(("unnorm", d([["a", f(5)], ["l1", ln("./a")], ["d", d([["l2", ln("..//a")], ["l3", ln("../d/")]])]]),
                 {"mode": "rel", "deref": False, "pw": None, "entry": "api", "relout": False}))
     out.append(("drive", d([["c:foo", f(5)], ["foo", f(6, seed=2)]]), {"mode": "dot", "deref": False, "pw": None, "entry": "api", "relout": False}))
+    out.append(("drive", d([["c:foo", f(5)]]), {"mode": "dot", "deref": False, "pw": None, "entry": "api", "relout": False}))
     out.append(("drive", d([["d:", d([["q:r", f(1)]])]]), {"mode": "dot", "deref": False, "pw": None, "entry": "api", "relout": False}))
     out.append(("drive", d([["c:foo", f(5)], ["d:", d([["q:r", f(1)]])]]), {"mode": "arc", "deref": False, "pw": None, "entry": "api", "relout": False}))
     out.append(("xnone", d([["f", f(1)], ["l", ln("f")]]), {"mode": "dot", "deref": False, "pw": None, "entry": "api", "relout": False, "xnone": True}))
@@ -1027,7 +1028,11 @@ def explore(ctx, rep, rng, tier):
             continue
         for p, c, what in r["diffs"]:
             k = (c, cfg["mode"], cfg["deref"])
-            if k in reported and c != "unclassified":
+            if c == "unclassified":
+                k = (c, cfg["mode"], cfg["deref"], what.split(" ")[0], len([x for x in reported if x[0] == c]) // 4)
+                if len([x for x in reported if x[0] == c]) >= 24:
+                    continue
+            if k in reported:
                 continue
             reported.add(k)
             rep.violation("writeall(%s%s)+extractall: %r: %s [%s]%s" % (
@@ -1035,6 +1040,10 @@ def explore(ctx, rep, rng, tier):
                 (" -- " + WHAT[c]) if c in WHAT else ""), dict(replay, path=p, defect=c),
                 match_keys={"defect": c, "mode": cfg["mode"]})
         for m in r["model"][:2]:
+            nmd = len([x for x in reported if x[0] == "model-disagrees"])
+            if nmd >= 12:
+                break
+            reported.add(("model-disagrees", nmd))
             rep.violation("model and implementation disagree: %s" % m, dict(replay, defect="model-disagrees"),
                           concrete=False, match_keys={"defect": "model-disagrees"})
     rep.extra["cases"] = len(results)
